@@ -1,5 +1,6 @@
 """C08 - contracts for aw_transform/heartbeats.py.  Top-level postconditions are the property text."""
 from datetime import timedelta
+from pyvc.specrt import *  # noqa: F401,F403
 from pyvc.api import contract, spec
 
 
